@@ -84,6 +84,10 @@ Definition sel_action (c : fctx) (x sel : name) : option str * list name :=
 Definition res_count (res : bool) : nat := if res then 1 else 0.
 Fixpoint elen (es : exprs) : nat := match es with ENil => 0 | ECons _ t => S (elen t) end.
 
+(* funcLitToLambdaExpr: a body that is exactly `return e1..en` with n = the number of results > 0 becomes
+   an expression lambda (b2092a4: nres > 0, a bare `return` stays a block lambda) *)
+Definition lam_ok (res : bool) (rs : exprs) : bool := (res && Nat.eqb (elen rs) (res_count res))%bool.
+
 Fixpoint tr_expr (c : fctx) (e : expr) {struct e} : expr * list name :=
   match e with
   | EInt _ | EStr _ | EVar _ => (e, [])
@@ -121,7 +125,7 @@ with tr_args (c : fctx) (es : exprs) {struct es} : exprs * list name :=
         | EFuncLit ps res body =>
             match body with
             | SCons (SReturn rs) SNil =>
-                if Nat.eqb (elen rs) (res_count res)
+                if lam_ok res rs
                 then let '(r', u) := tr_exprs c rs in (ELambda ps r', u)
                 else let '(b', u) := tr_block c body in (ELambda2 ps b', u)
             | _ => let '(b', u) := tr_block c body in (ELambda2 ps b', u)
